@@ -32,7 +32,8 @@ GROW = ('setitem_scalar', 'setitem_list', 'setitem_array', 'setitem_series', 'se
 DERIVE = ('to_frame', 'to_frame_go', 'to_frame_he', 'iloc_null', 'iloc_cols', 'iloc_rows', 'getitem_list', 'relabel', 'rename', 'sort_index',
           'sort_columns', 'reindex', 'mul', 'neg', 'transpose', 'set_index', 'iter_group', 'iter_window', 'astype', 'assign', 'drop', 'fillna',
           'shift', 'roll', 'insert', 'concat', 'ctor_frame', 'ctor_framego', 'copycopy', 'deepcopy', 'pickle', 'static_to_go', 'columns_static',
-          'columns_copy', 'head', 'T_go', 'loc_all', 'unset_index', 'isna', 'clip', 'from_items')
+          'columns_copy', 'head', 'T_go', 'loc_all', 'unset_index', 'isna', 'clip', 'from_items', 'drop_rows_iloc', 'drop_rows_list', 'drop_rows_loc',
+          'dropna', 'sort_values', 'tail', 'loc_rows', 'iloc_row_list', 'relabel_index', 'astype_col', 'assign_rows')
 READ = ('values', 'len', 'display', 'columns_values', 'dtypes', 'iter', 'none')
 # content-preserving derivations that are also taken from a frame *immediately* after it has grown, before
 # anything re-reads it (observation refreshes lazily rebuilt caches and would hide stale state)
@@ -504,6 +505,28 @@ def derive(f, s, stp):
             return c._IMMUTABLE_CONSTRUCTOR(c) if not c.STATIC else c
         if s == 'columns_copy':
             return f.columns.copy()
+        if s == 'drop_rows_iloc':
+            return f.drop.iloc[i % n] if n else None
+        if s == 'drop_rows_list':
+            return f.drop.iloc[[i % n]] if n else None
+        if s == 'drop_rows_loc':
+            return f.drop.loc[list(f.index)[i % n]] if n and f.index.depth == 1 else None
+        if s == 'dropna':
+            return f.dropna(axis=0, condition=np.all)
+        if s == 'sort_values':
+            return f.sort_values(list(f.columns)[i % m]) if m and f.columns.depth == 1 else None
+        if s == 'tail':
+            return f.tail(2)
+        if s == 'loc_rows':
+            return f.loc[list(f.index)[: (i % (n + 1))]] if f.index.depth == 1 else None
+        if s == 'iloc_row_list':
+            return f.iloc[[q for q in range(n) if (i >> q) & 1]]
+        if s == 'relabel_index':
+            return f.relabel(index=lambda x: ('r', x) if not isinstance(x, tuple) else ('r',) + x)
+        if s == 'astype_col':
+            return f.astype[list(f.columns)[i % m]](object) if m and f.columns.depth == 1 else None
+        if s == 'assign_rows':
+            return f.assign.iloc[0](-1) if n and m else None
         if s == 'from_items':
             return sf.FrameGO.from_items(f.items(), index=f.index) if f.columns.depth == 1 else None
         return None
